@@ -422,6 +422,20 @@ class Models:
     def pat(self, regex, fn):
         self.patterns.append((re.compile(regex), fn))
 
+    def lookup_suffix(self, n):
+        """a free std function called through a `use` import is printed by its short path (`successors::<..>`,
+        `mem::take::<..>`): match registered `std::a::b` names by unambiguous path suffix (tried only after the
+        crate's own items)"""
+        if not hasattr(self, '_suffix'):
+            idx = {}
+            for name, fn in self.exact.items():
+                if name.startswith(('std::', 'core::', 'alloc::')) and '<' not in name:
+                    parts = name.split('::')
+                    for k in range(1, len(parts)):
+                        idx.setdefault('::'.join(parts[k:]), set()).add(fn)
+            self._suffix = {k: next(iter(v)) for k, v in idx.items() if len(v) == 1}
+        return self._suffix.get(n)
+
     def lookup(self, I, callee, n):
         h = self.exact.get(n)
         if h is not None:
@@ -1148,4 +1162,8 @@ class Models:
             return RefIt(d.l, d.a, d.b)
         if isinstance(d, Agg) and d.name == '[]':
             return RefIt(d.f, 0, len(d.f)) if isinstance(x, Ptr) else ListIt(d.f)
+        if isinstance(d, Enum) and d.ty == 'Option':      # Option<T> is IntoIterator (zero or one item)
+            if isinstance(x, Ptr):
+                return ListIt([Ptr(d.f, 0)] if d.v == 1 else [])
+            return ListIt(list(d.f) if d.v == 1 else [])
         return x
